@@ -184,6 +184,15 @@ def record(args):
         out.append({"id": rid, "rec": "run", "score": name, "n": n, "p": p, "b": b, "mdi": mdi, "tuned": tuned,
                     "thr": q(det.threshold_), "tol": 64, "unit": unit, "vals": [q(v) for v in vals],
                     "scores": [q(v) for v in sc], "cps": cps, "X": X.tolist()})
+        if which == 3:
+            # covariance-based scores: the reversal relation is judged on well-conditioned windows only (a nearly singular
+            # sample covariance makes the log-determinant rounding-dominated; exact singularity is C01's special case)
+            def cond_ok(a_, b_):
+                ev = np.linalg.eigvalsh(np.cov(X[a_:b_], rowvar=False, ddof=0).reshape(p, p))
+                return ev[0] > 1e-6 * max(ev[-1], 1e-12)
+
+            if not all(cond_ok(t - b, t) and cond_ok(t, t + b) and cond_ok(t - b, t + b) for t in range(b, n - b + 1)):
+                continue
         out.append({"id": rid + "r", "rec": "reversal", "score": name, "n": n, "b": b, "tol": 64, "unit": unit,
                     "a": [q(v) for v in sc], "r": [q(v) for v in rsc]})
     return out
